@@ -189,6 +189,38 @@ def replay_native(module: str, func: str, shape: Dict[str, Any], call: Dict[str,
     return {"ok": None, "exc": "replay crashed: " + p.stderr[-400:], "kwargs": kwargs}
 
 
+def probe_hang(c: Cond) -> Optional[Dict[str, Any]]:
+    code = (
+        "import sys, json\n"
+        f"sys.path.insert(0, {ROOT!r})\n"
+        f"import {c.module} as H\n"
+        f"print('@@' + json.dumps(getattr(H, 'HANG_PROBES', {{}}).get({c.func!r}, [])))\n")
+    try:
+        p = subprocess.run([PY, "-W", "ignore", "-c", code], capture_output=True, text=True, env=dict(os.environ, VF_NOSTUB="1"), timeout=60)
+        probes = []
+        for line in p.stdout.splitlines():
+            if line.startswith("@@"):
+                probes = json.loads(line[2:])
+    except Exception:
+        return None
+    for kw in probes[:40]:
+        full = dict(c.shape)
+        full.update(kw)
+        run = (
+            "import sys\n"
+            f"sys.path.insert(0, {ROOT!r})\n"
+            f"import {c.module} as H\n"
+            "try:\n"
+            f"    H.{c.func}(**{full!r})\n"
+            "except BaseException:\n"
+            "    pass\n")
+        try:
+            subprocess.run([PY, "-W", "ignore", "-c", run], capture_output=True, text=True, env=dict(os.environ, VF_NOSTUB="1"), timeout=10)
+        except subprocess.TimeoutExpired:
+            return full
+    return None
+
+
 def run_cond(c: Cond, wd: str, idx: int) -> Obligation:
     path = os.path.join(wd, f"c{idx}.py")
     _gen(c, path)
@@ -203,6 +235,15 @@ def run_cond(c: Cond, wd: str, idx: int) -> Obligation:
     except subprocess.TimeoutExpired as e:
         ob.wall_s = time.time() - t0
         ob.detail = "crosshair process exceeded its wall cap"
+        # CrossHair normally stops itself at per_condition_timeout; running past the wall cap means a path never returned
+        # control (a loop without a symbolic decision).  Triage: replay the harness's declared hang probes natively under a
+        # short timeout; a probe that does not return is a confirmed hang and is reported as a counterexample.
+        hang = probe_hang(c)
+        if hang is not None:
+            ob.status = CEX
+            ob.replayed = True
+            ob.cex = {"call": f"{c.module}.{c.func}", "kwargs": hang, "native": {"exc": "did not return within 10 s (hang)"}}
+            ob.detail = f"hang: {c.func}(**{hang!r}) does not return"
         return ob
     ob.wall_s = time.time() - t0
     src = open(path).read().splitlines()
